@@ -61,23 +61,37 @@ def cond_mentions_field(F, e, rec, fld):
 
 
 def guarded_by_true_edge(F, site, pred):
-    """Is node `site` only reachable through the true edge of a branch whose condition satisfies pred(cond id)?"""
-    pb = F.pos[site][0]
-    dom = cfg.dominators(F)
-    for b in dom.get(pb, ()):
-        blk = F.blocks[b]
-        t = blk.get('term')
-        if not t or 'cond' not in t or len(blk['succs']) < 2:
-            continue
-        if not pred(t['cond']):
-            continue
-        tr, fa = blk['succs'][0], blk['succs'][1]
-        if tr is None:
-            continue
-        # site dominated by the true successor, and the true successor is entered only from b
-        if tr in dom.get(pb, ()) and tr != fa and all(p == b for p in F.preds[tr]):
-            return True
-    return False
+    """Is node `site` reached only while a condition satisfying pred(cond id) holds?  The form of the test does not matter:
+    if(x){site}, if(!x)return; site, if(x!=0 && y){site} all count (atomic_conditions normalises them)."""
+    return any(pol and pred(c) for c, pol in atomic_conditions(F, site))
+
+
+def atomic_conditions(F, node):
+    """controlling_conditions split into atoms: [(expr id, truth)] -- `!c` flips the truth, c!=0 / c==0 reduce to c,
+    a conjunction that must be true (a disjunction that must be false) contributes each operand"""
+    out = []
+
+    def add(c, pol):
+        nd = F.ex[c]
+        if nd['k'] in ('cast', 'paren'):
+            return add(nd['c'][0], pol)
+        if nd['k'] == 'un' and nd['op'] == '!':
+            return add(nd['c'][0], not pol)
+        if nd['k'] == 'bin' and nd['op'] in ('!=', '==') and (is_zero(F, nd['c'][1]) or is_zero(F, nd['c'][0])):
+            other = nd['c'][0] if is_zero(F, nd['c'][1]) else nd['c'][1]
+            return add(other, pol if nd['op'] == '!=' else not pol)
+        if nd['k'] == 'bin' and nd['op'] == '&&' and pol:
+            add(nd['c'][0], True)
+            add(nd['c'][1], True)
+            return
+        if nd['k'] == 'bin' and nd['op'] == '||' and not pol:
+            add(nd['c'][0], False)
+            add(nd['c'][1], False)
+            return
+        out.append((c, pol))
+    for c, pol in controlling_conditions(F, node):
+        add(c, pol)
+    return out
 
 
 def call_name(F, e):
@@ -231,6 +245,62 @@ def single_defs(F):
             if l['k'] == 'ref' and l['decl']['kind'] == 'var':
                 count[l['decl']['id']] = count.get(l['decl']['id'], 0) + 2
     return {v: e for v, e in defs.items() if count.get(v) == 1}
+
+
+def alias_of_var(F, vid, at):
+    """`const int slot=vc->comments; ... arr[slot]`: when local vid is assigned exactly once from a location (field or
+    variable) and that location is not stored between the definition and node `at`, the location's expression id"""
+    defs = single_defs(F)
+    d = defs.get(vid)
+    if d is None:
+        return None
+    d = F.strip_casts(d)
+    dn = F.ex[d]
+    if dn['k'] not in ('member', 'ref') or (dn['k'] == 'ref' and dn['decl'].get('kind') not in ('var', 'param')):
+        return None
+    txt = F.s(d)
+    dpos = None
+    for n in F.pos:
+        x = F.ex[n]
+        if x['k'] == 'decl' and any(v.get('id') == vid and v.get('init') is not None for v in x['vars']):
+            dpos = F.pos[n]
+        elif x['k'] == 'assign' and x['op'] == '=':
+            l = F.ex[F.strip_casts(x['c'][0])]
+            if l['k'] == 'ref' and l['decl'].get('id') == vid:
+                dpos = F.pos[n]
+    if dpos is None:
+        return None
+
+    def mod(n):
+        x = F.ex[n]
+        if x['k'] == 'assign' or (x['k'] == 'un' and x['op'] in ('pre++', 'pre--', 'post++', 'post--')):
+            return F.s(F.strip_casts(x['c'][0])) == txt
+        return False
+    if cfg.search(F, dpos, mod, lambda n: n == at) is not None:
+        return None
+    return d
+
+
+def alias_of(F, e, at):
+    """expression e with a single-assignment local copy of a location resolved to that location (see alias_of_var)"""
+    e = F.strip_casts(e)
+    nd = F.ex[e]
+    if nd['k'] != 'ref' or nd['decl'].get('kind') != 'var':
+        return e
+    d = alias_of_var(F, nd['decl'].get('id'), at)
+    return e if d is None else d
+
+
+def canon_at(F, e, sk, at):
+    """canonical text of e as evaluated at node `at`: local copies of an unmodified location print as the location"""
+    env = {}
+    for n in F.walk(e):
+        nd = F.ex[n]
+        if nd['k'] == 'ref' and nd['decl'].get('kind') == 'var' and nd['decl'].get('id') not in env:
+            d = alias_of_var(F, nd['decl']['id'], at)
+            if d is not None:
+                env[nd['decl']['id']] = sk.canon(F, d, {})
+    return sk.canon(F, e, env)
 
 
 def canon_x(F, e, sk, depth=2, defs=None):
